@@ -332,6 +332,13 @@ pub fn check_c16(cfg: &ChainCfg, h: &History, out: &mut RunOutcome) {
         return;
     }
     let pname = cfg.preset.name();
+    // "exactly the declared names": a name declared twice cannot be told apart by any name-keyed consumer
+    for (i, n) in schema.names.iter().enumerate() {
+        if schema.names[..i].contains(n) {
+            out.violate(format!("C16/duplicate_stat_name/{pname}/{n}"), format!("statistic '{n}' is declared {} times in stat_names", schema.names.iter().filter(|x| *x == n).count()));
+            return;
+        }
+    }
     let mut always_present: std::collections::BTreeMap<String, (u64, u64)> = Default::default(); // present, absent
     let mut prev_draw: Option<u64> = None;
     let mut chain_id: Option<u64> = None;
@@ -460,6 +467,12 @@ pub fn check_c16(cfg: &ChainCfg, h: &History, out: &mut RunOutcome) {
                     return;
                 }
             }
+            let reinit_before_next = cfg.reinit_at == Some(i as u64 + 1);
+            let reinit_before_this = cfg.reinit_at == Some(i as u64) && i > 0;
+            if reinit_before_this && !upd {
+                out.violate(format!("C16/reinit_transformation_not_reported/{pname}"), format!("draw {i}: set_position rebuilt the transformation before this draw but no transformation_update_id was reported"));
+                return;
+            }
             if i == 0 && !upd {
                 out.violate(format!("C16/initial_transformation_not_reported/{pname}"), "draw 0 has no transformation_update_id");
                 return;
@@ -469,7 +482,11 @@ pub fn check_c16(cfg: &ChainCfg, h: &History, out: &mut RunOutcome) {
                 let b = h.draws[i + 1].i64("transformation_index");
                 if let (Some(a), Some(b)) = (a, b) {
                     // index(n+1) is the transformation in force during trajectory n+1, i.e. after adapt of draw n
-                    if i > 0 && (a != b) != upd {
+                    if reinit_before_next || reinit_before_this {
+                        // the transformation was rebuilt by set_position between two draws: the event is
+                        // reported on the draw after the re-initialisation (checked above)
+                        out.probe("reinit_points_checked", 1);
+                    } else if i > 0 && (a != b) != upd {
                         out.violate(
                             format!("C16/update_event_vs_index/{pname}"),
                             format!("draw {i}: transformation_update_id present={upd}, transformation_index {a} -> {b}"),
